@@ -159,9 +159,18 @@ class PathResolver:
             idx = self.ev(e.slice)
         return ('sub', base, idx)
 
+    def _const_getattr(self, e: ast.AST) -> bool:
+        return isinstance(e, ast.Call) and isinstance(e.func, ast.Name) and e.func.id == 'getattr' and 'getattr' not in self.sp.env and len(e.args) == 2 \
+            and not e.keywords and isinstance(e.args[1], ast.Constant) and isinstance(e.args[1].value, str) and e.args[1].value.isidentifier()
+
     def e_Call(self, e: ast.Call) -> Term:
         recv: T.Optional[Term] = None
         f = e.func
+        # `getattr(x, 'name')` with a literal name is the attribute `x.name` (kind A4: attribute selected by name from a constant table)
+        if self._const_getattr(e):
+            return self.ev(ast.copy_location(ast.Attribute(value=e.args[0], attr=e.args[1].value, ctx=ast.Load()), e))      # type: ignore[attr-defined]
+        if self._const_getattr(f):
+            f = ast.copy_location(ast.Attribute(value=f.args[0], attr=f.args[1].value, ctx=ast.Load()), f)      # type: ignore[attr-defined]
         # a module-level alias `name = functools.partial(F, a, ...)`: name(x) is F(a, ..., x)
         if isinstance(f, ast.Name) and self.mod is not None and f.id not in self.sp.env and self.mod.has_assign(f.id):
             v = self.mod.assign_value(f.id)
@@ -417,10 +426,32 @@ class _Rename(ast.NodeTransformer):
 
 
 def _callee_of(call: ast.AST, helpers: T.Dict[str, ast.FunctionDef]) -> T.Optional[ast.FunctionDef]:
-    if isinstance(call, ast.Call) and isinstance(call.func, ast.Attribute) and isinstance(call.func.value, ast.Name) and call.func.value.id in ('self', 'cls') \
-            and call.func.attr in helpers:
-        return helpers[call.func.attr]
+    """The helper a call denotes: `self.h(..)` / `cls.h(..)` (same-class method), `Class.h(..)` for a static helper, or `h(..)` for a module-level
+    private function registered under the key `::h` (see module_helpers)."""
+    if not isinstance(call, ast.Call):
+        return None
+    f = call.func
+    if isinstance(f, ast.Attribute) and isinstance(f.value, ast.Name) and f.attr in helpers:
+        if f.value.id in ('self', 'cls'):
+            return helpers[f.attr]
+        if f.value.id[:1].isupper() and any(norm(d) == 'staticmethod' for d in helpers[f.attr].decorator_list):
+            return helpers[f.attr]
+    if isinstance(f, ast.Name) and ('::' + f.id) in helpers:
+        return helpers['::' + f.id]
     return None
+
+
+def module_helpers(mod: T.Any, stop: T.Iterable[str] = ()) -> T.Dict[str, ast.FunctionDef]:
+    """Private module-level functions (undecorated, underscore name) as helper candidates: a block or a static helper moved out of its class (kind E2).
+    They are registered under `::name` and presented as static functions (no receiver parameter)."""
+    out: T.Dict[str, ast.FunctionDef] = {}
+    stop = set(stop)
+    for st in mod.tree.body:
+        if isinstance(st, ast.FunctionDef) and st.name.startswith('_') and not st.name.startswith('__') and st.name not in stop and not st.decorator_list:
+            c = _copy.copy(st)
+            c.decorator_list = [ast.Name(id='staticmethod', ctx=ast.Load())]
+            out['::' + st.name] = c
+    return out
 
 
 def _instantiate(callee: ast.FunctionDef, call: ast.Call, tag: str) -> T.Optional[T.List[ast.stmt]]:
@@ -541,7 +572,27 @@ def inline_helpers(body: T.List[ast.stmt], helpers: T.Dict[str, ast.FunctionDef]
         return inline_helpers(inst, helpers, depth - 1, counter, _stack + (callee.name,))
 
     out: T.List[ast.stmt] = []
-    for st in body:
+    work = list(body)
+    while work:
+        st = work.pop(0)
+        # A-normal form: a helper call nested in the statement's expression, evaluated before any other call, is bound to a temporary first
+        lifted = _lift_nested(st, helpers, counter) if depth > 0 else None
+        if lifted is not None:
+            work[0:0] = lifted
+            continue
+        if isinstance(st, ast.Raise) and st.exc is not None and st.cause is None:
+            # `raise self._h(a)` with a helper that only builds the exception: the helper body, then `raise <returned expression>`
+            c = _callee_of(st.exc, helpers)
+            if c is not None:
+                rets = _returns(c.body)
+                if len(rets) == 1 and c.body and c.body[-1] is rets[0] and rets[0].value is not None:
+                    inst = expand(c, st.exc)        # type: ignore[arg-type]
+                    if inst is not None and isinstance(inst[-1], ast.Return):
+                        last = inst[-1]
+                        out.extend(inst[:-1])
+                        out.append(ast.copy_location(ast.Raise(exc=last.value, cause=None), st))
+                        ast.fix_missing_locations(out[-1])
+                        continue
         if isinstance(st, ast.Return) and st.value is not None:
             c = _callee_of(st.value, helpers)
             if c is not None:
@@ -596,6 +647,73 @@ def inline_helpers(body: T.List[ast.stmt], helpers: T.Dict[str, ast.FunctionDef]
     return out
 
 
+_CONDITIONAL_EVAL = (ast.IfExp, ast.BoolOp, ast.Lambda, ast.ListComp, ast.SetComp, ast.DictComp, ast.GeneratorExp, ast.NamedExpr, ast.Await, ast.Yield, ast.YieldFrom,
+                     ast.Dict, ast.JoinedStr)
+
+
+def _first_call(e: ast.AST) -> T.Any:
+    """The call completed first when `e` is evaluated; None when `e` contains no call; False when that cannot be told from the shape
+    (conditionally evaluated sub-expressions)."""
+    if isinstance(e, _CONDITIONAL_EVAL):
+        return False if any(isinstance(n, ast.Call) for n in ast.walk(e)) else None
+    if isinstance(e, ast.Call):
+        for ch in [e.func] + list(e.args) + [k.value for k in e.keywords]:
+            r = _first_call(ch)
+            if r is not None:
+                return r
+        return e
+    if isinstance(e, ast.Compare):
+        kids: T.List[ast.AST] = [e.left] + list(e.comparators)
+    else:
+        kids = [c for c in ast.iter_child_nodes(e) if isinstance(c, ast.expr)]
+    for ch in kids:
+        r = _first_call(ch)
+        if r is not None:
+            return r
+    return None
+
+
+def _lift_nested(st: ast.stmt, helpers: T.Dict[str, ast.FunctionDef], counter: T.List[int]) -> T.Optional[T.List[ast.stmt]]:
+    """`f(a, self._h(x))` / `y = g(self._h(x))` / `return [self._h(x)]` ... -> `_lift = self._h(x)` followed by the statement over `_lift`, when the helper
+    call is the first call the statement evaluates (so binding it first keeps the order of effects).  A helper call that IS the statement's value
+    is left to the statement-level cases of inline_helpers."""
+    if isinstance(st, (ast.Expr, ast.Return, ast.Assign, ast.AnnAssign, ast.AugAssign)):
+        top = st.value
+    elif isinstance(st, ast.Raise) and st.cause is None:
+        top = st.exc
+    elif isinstance(st, ast.If):
+        top = st.test
+    else:
+        return None
+    if top is None:
+        return None
+    if isinstance(st, (ast.Assign, ast.AugAssign, ast.AnnAssign)):
+        tgs = st.targets if isinstance(st, ast.Assign) else [st.target]
+        if any(isinstance(n, ast.Call) for t in tgs for n in ast.walk(t)):
+            return None
+    fc = _first_call(top)
+    if not isinstance(fc, ast.Call) or (fc is top and not isinstance(st, ast.If)):
+        return None
+    c = _callee_of(fc, helpers)
+    if c is None:
+        return None
+    counter[0] += 1
+    tmp = f'_lift{counter[0]}_'
+    bind = ast.copy_location(ast.Assign(targets=[ast.Name(id=tmp, ctx=ast.Store())], value=fc), st)
+    new = _copy.copy(st)
+    repl = ast.copy_location(ast.Name(id=tmp, ctx=ast.Load()), fc)
+    field = 'test' if isinstance(st, ast.If) else 'exc' if isinstance(st, ast.Raise) else 'value'
+    if fc is top:
+        setattr(new, field, repl)
+    else:
+        top2 = _copy.deepcopy(top)          # the module's tree is shared: never rewrite it in place
+        fc2 = next(c for o, c in zip(ast.walk(top), ast.walk(top2)) if o is fc)
+        setattr(new, field, _ReplaceNode(fc2, repl).visit(top2))
+    ast.fix_missing_locations(bind)
+    ast.fix_missing_locations(new)
+    return [bind, new]
+
+
 def private_helpers(cls: ast.ClassDef, stop: T.Iterable[str] = ()) -> T.Dict[str, ast.FunctionDef]:
     """Private (underscore, non-dunder) methods of a class: candidates for having been extracted from a public method."""
     stop = set(stop)
@@ -636,7 +754,7 @@ class _Subst(ast.NodeTransformer):
         return n
 
 
-def unroll_table_loops(body: T.List[ast.stmt], lookup: T.Callable[[str], T.Optional[ast.AST]], limit: int = 12) -> T.List[ast.stmt]:
+def unroll_table_loops(body: T.List[ast.stmt], lookup: T.Callable[[str], T.Optional[ast.AST]], limit: int = 32) -> T.List[ast.stmt]:
     """`for a, b in TABLE: BODY` with TABLE a module/class-level constant display -> BODY once per row, the loop variables replaced by the row's
     entries (only when BODY neither breaks/continues nor re-binds the loop variables, and the loop has no else)."""
     out: T.List[ast.stmt] = []
@@ -770,3 +888,53 @@ def desugar_conditionals(body: T.List[ast.stmt]) -> T.List[ast.stmt]:
         ast.fix_missing_locations(node)
         out.append(node)
     return out
+
+
+# ---------------------------------------------------------------------------
+# constant folding through table-builder functions (policy form a): `T = _build(A)` with `def _build(x): return [*B, ('id', x), *C]`
+# ---------------------------------------------------------------------------
+
+from ..consteval import Folder as _Folder
+
+
+class BFolder(_Folder):
+    """sa.consteval.Folder + beta reduction of a call of a module-level function whose body is a single `return <expression>`: the expression is
+    folded with the parameters bound to the folded arguments (no statement is executed, no loop is run)."""
+
+    def sub(self, mod: T.Any, scope: T.Optional[ast.ClassDef] = None) -> '_Folder':
+        if self.depth > 12:
+            raise Undecided('constant folding recursion too deep')
+        return BFolder(self.repo, mod, scope, None, self.depth + 1)
+
+    def f_Call(self, e: ast.Call) -> T.Any:
+        f = e.func
+        if isinstance(f, ast.Name) and f.id not in self.env and self.mod.has_func(f.id) and not self.mod.has_assign(f.id):
+            fn = self.mod.func(f.id)
+            body = [s_ for s_ in fn.body if not (isinstance(s_, ast.Expr) and isinstance(s_.value, ast.Constant))]
+            a = fn.args
+            if len(body) == 1 and isinstance(body[0], ast.Return) and body[0].value is not None and not fn.decorator_list and not (a.vararg or a.kwarg or a.posonlyargs) \
+                    and not any(isinstance(x, ast.Starred) for x in e.args) and all(k.arg for k in e.keywords) and len(e.args) <= len(a.args):
+                if self.depth > 12:
+                    raise Undecided('constant folding recursion too deep')
+                params = [p.arg for p in a.args] + [p.arg for p in a.kwonlyargs]
+                env: T.Dict[str, T.Any] = {}
+                for p, v in zip(params, e.args):
+                    env[p] = self.fold(v)
+                for k in e.keywords:
+                    if k.arg in env or k.arg not in params:
+                        raise Undecided(f'cannot fold call {norm(e)}: argument {k.arg}')
+                    env[k.arg] = self.fold(k.value)          # type: ignore[index]
+                defaults = dict(zip([p.arg for p in a.args][len(a.args) - len(a.defaults):], a.defaults))
+                defaults.update({p.arg: d for p, d in zip(a.kwonlyargs, a.kw_defaults) if d is not None})
+                for p in params:
+                    if p not in env:
+                        if p not in defaults:
+                            raise Undecided(f'cannot fold call {norm(e)}: parameter {p} unbound')
+                        env[p] = BFolder(self.repo, self.mod, None, None, self.depth + 1).fold(defaults[p])
+                return BFolder(self.repo, self.mod, None, env, self.depth + 1).fold(body[0].value)
+        return super().f_Call(e)
+
+
+def fold_expr(repo: T.Any, mod: T.Any, e: ast.AST, cls: T.Optional[str] = None, env: T.Optional[T.Dict[str, T.Any]] = None) -> T.Any:
+    """Drop-in for sa.consteval.fold_expr that also reads tables built by one-expression builder functions."""
+    return BFolder(repo, mod, mod.cls(cls) if cls else None, env).fold(e)
